@@ -519,6 +519,9 @@ func runC06(r *core.Run) (bool, string) {
 		}
 	})
 
+	// ---- 2b. shapes of the pattern list (repeated / overlapping / nested / respelled / reordered patterns)
+	s.runShapes()
+
 	// ---- 3. the race build over the same workload
 	wg.Wait()
 	if raceErr != nil {
@@ -593,6 +596,9 @@ func runC06(r *core.Run) (bool, string) {
 	}
 	if r.GetCount("files_compared_with_singleton_run") < 50 {
 		return false, "fewer than 50 files compared with singleton runs"
+	}
+	if r.GetCount("pattern_shape_invocations") < 5 || r.GetCount("pattern_shape_error_blocks_matched") < 10 {
+		return false, "fewer than 5 pattern-list shapes judged / fewer than 10 error blocks of failing packages attributed under them"
 	}
 	return true, ""
 }
